@@ -80,6 +80,9 @@ func c19Cases(timeout float64) []c19Case {
 		{Mode: "sleep-beyond-deadline-child", script: "sleep " + over + "; echo 5", mustErr: true},
 		{Mode: "sleep-ignoring-sigterm", script: "trap '' TERM INT HUP; sleep " + over + "; echo 5", mustErr: true},
 		{Mode: "grandchild-holds-stdout", script: "(sleep " + over + " &) ; echo 42; exit 0", wantOut: "42", mayOutput: true, mayErr: true},
+		// the straggler keeps stdout only (its stderr goes elsewhere): nothing else of the command's pipes stays open
+		{Mode: "grandchild-holds-stdout-only", script: "(sleep " + over + " 2>/dev/null &) ; echo 42; exit 0", wantOut: "42", mayOutput: true, mayErr: true},
+		{Mode: "grandchild-holds-stdout-only-exit1", script: "(sleep " + over + " 2>/dev/null &) ; echo 42; exit 1", mustErr: true},
 		{Mode: "grandchild-holds-stdout-exit1", script: "(sleep " + over + " &) ; echo 42; exit 1", mustErr: true},
 		{Mode: "empty-output", script: "true", wantOut: "", mayOutput: true},
 		// blank but not zero-length output: whatever is returned, the call returns
@@ -324,7 +327,7 @@ func init() {
 				case "not-executable", "missing-interpreter", "exit1-with-output", "grandchild-holds-stdout", "sleep-beyond-deadline-child", "non-numeric-output", "empty-output", "ok", "ok-with-stderr", "text-file-busy",
 					"blank-output-space", "blank-output-tab", "blank-output-crlf", "blank-output-lines", "value-with-unit",
 					"missing", "symlink-loop", "parent-is-a-file", "name-too-long", "is-a-directory", "dangling-symlink",
-					"many-stdout-lines", "exit3-with-many-stderr-lines", "no-shebang-sleeps-beyond-deadline":
+					"many-stdout-lines", "exit3-with-many-stderr-lines", "no-shebang-sleeps-beyond-deadline", "grandchild-holds-stdout-only":
 				default:
 					if !ctx.Thorough() {
 						continue
@@ -624,7 +627,7 @@ func c19AfterReportedError(ctx *Ctx, dir string) {
 			_ = os.Unsetenv("DISPLAY")
 		}
 	}()
-	for b := 0; b < 6; b++ {
+	for b := 0; b < 7; b++ {
 		sub := *ctx
 		sub.Batch = b
 		_ = os.Setenv("PATH", oldPath)
